@@ -47,6 +47,9 @@ TC2S == /\ IsEv("c2s")
                  [] r.k = "unkreq"   -> UnknownReq
                  [] r.k = "unknotif" -> UnknownNotif(r.w)
                  [] r.k = "cresp"    -> ClientResponse
+                 [] r.k = "close"    -> DidClose(r.u)
+                 [] r.k = "badreq"   -> BadParamsReq(r.w)
+                 [] r.k = "badnotif" -> BadParamsNotif(r.m, r.w)
                  [] r.k = "shutdown" -> Shutdown
                  [] r.k = "exit"     -> Exit
                  [] OTHER            -> FALSE
@@ -57,6 +60,7 @@ Matches(r, e) ==
     [] e.k = "resp" -> /\ r.k = "resp" /\ r.id = e.id
                        /\ r.tk = (IF e.what = "semtok" THEN TokId(e.st) ELSE 0)
     [] e.k = "err"  -> r.k = "err" /\ r.id = e.id /\ r.code = -32601
+    [] e.k = "errp" -> r.k = "err" /\ r.id = e.id
     [] OTHER        -> FALSE
 
 TS2C == /\ IsEv("s2c")
